@@ -134,7 +134,7 @@ func c20Session(c *Ctx, logger *rig.CapLogger, pass, kind string, capn, useSasl,
 	disc := make(chan struct{}, 4)
 	s.Conn.HandleFunc(client.DISCONNECTED, func(_ *client.Conn, l *client.Line) { disc <- struct{}{} })
 	cycles := 1
-	if kind == "reconnect" || kind == "wdrop" {
+	if kind == "reconnect" || kind == "wdrop" || kind == "passwhiledown" {
 		cycles = 2
 	}
 	for cy := 0; cy < cycles; cy++ {
@@ -226,6 +226,14 @@ func c20Session(c *Ctx, logger *rig.CapLogger, pass, kind string, capn, useSasl,
 		for _, l := range mc.Lines() {
 			if strings.HasPrefix(l, "PASS ") {
 				passOnWire = true
+			}
+		}
+		if kind == "passwhiledown" && cy == 0 {
+			// the application hands the password over while the client is not connected (the call just queues the
+			// line; whatever becomes of that queue at the next connect, the line is never logged in clear)
+			if !watched(func() { s.Conn.Pass(pass) }) {
+				c.R.Inconcl("Pass() on a disconnected client did not return")
+				return nil, false, false
 			}
 		}
 	}
@@ -326,7 +334,7 @@ func runC20(c *Ctx) {
 	total := c.Pick(4000, 100000)
 	per := total / parts
 	logger := rig.NewCapLogger(nil)
-	kinds := []string{"ok", "ok", "refused", "writeerr", "eof", "reconnect", "scrub", "stallclose", "badcfg", "connectto", "wdrop"}
+	kinds := []string{"ok", "ok", "refused", "writeerr", "eof", "reconnect", "scrub", "stallclose", "badcfg", "connectto", "wdrop", "passwhiledown"}
 	for i := 0; i < per; i++ {
 		idx := part*per + i
 		if !c.Want("pw", idx) {
